@@ -88,6 +88,29 @@ func propC20(g *G, n int) {
 			}
 		}
 	}
+	// results are a function of the arguments and DefaultRoundingMode only, not of what an earlier call left behind: a
+	// numeral that needs rounding is parsed under one mode, then under another, and the second result is compared with
+	// that of the same numeral spelled with a leading zero (same value, same rounding, but a different string)
+	for i := 0; i < n/8+8; i++ {
+		lit := g.digitsStr(36+g.pick(6), false)
+		if lit[0] == '0' {
+			lit = "7" + lit[1:]
+		}
+		if g.chance(0.5) {
+			p := 1 + g.pick(len(lit)-1)
+			lit = lit[:p] + "." + lit[p:]
+		}
+		m1 := uint8(g.pick(6))
+		m2 := uint8((int(m1) + 1 + g.pick(5)) % 6)
+		for _, op := range []string{"api.Parse", "api.MustParse"} {
+			apiCall(m1, op, []string{sBytes([]byte(lit))})
+			r2 := apiCall(m2, op, []string{sBytes([]byte(lit))})
+			r3 := apiCall(m2, op, []string{sBytes([]byte("0" + lit))})
+			if strings.Join(r2, " ") != strings.Join(r3, " ") {
+				record(m2, "NONDET", []string{op + "-depends-on-an-earlier-call", sBytes([]byte(lit))}, r2)
+			}
+		}
+	}
 	// byte slices handed out belong to the caller: overwriting them must not change what later calls return
 	for i := 0; i < n/8+8; i++ {
 		x := g.decimal()
